@@ -96,6 +96,9 @@ def _run(repo, cls_key, write_q, read_q, obj, read_kwargs):
     r = Iw.call(repo.func(mod, write_q), ['FILE'], selfv=obj)
     if isinstance(r, Unk) or len(hw.written) != 1:
         return Iw, None, r if isinstance(r, Unk) else Unk('the writer wrote %d files' % len(hw.written))
+    if Iw.lost or getattr(hw, 'unmodelled', None):
+        # the symbolic file is only what the modelled calls put into it: with a call of the writer lost, what a reader misses in it says nothing
+        return Iw, None, Unk('the writer was not fully modelled: %s' % (str((Iw.lost or hw.unmodelled)[0])[:120]))
 
     def read(assume=()):
         hr = fitsem.FitsHooks(file=copy.deepcopy(hw.written[0]))
